@@ -4,6 +4,7 @@ import Hive.Proofs.AdsGlueTrie
 import Hive.Model.AdsTrieLine
 import Hive.Proofs.AdsConc
 import Hive.Proofs.AdsRealm
+import Hive.Proofs.AdsId
 import Hive.Gen.C09_Skel
 import Hive.Gen.C09_Consts
 /-!
@@ -840,6 +841,89 @@ theorem C09_layout_regenerated :
       layout.raw r = r ++ [UInt8.ofNat prefixRawKeysStorage] ∧ layout.tree r = r ++ [UInt8.ofNat prefixTreeStorage] ∧
       layout.root r = r ++ [UInt8.ofNat prefixRootKey] ∧ layout.size r = r ++ [UInt8.ofNat prefixSizeKey] :=
   ⟨⟨rfl, rfl⟩, rfl, rfl, rfl, ⟨rfl, rfl⟩, fun _ => ⟨rfl, rfl, rfl, rfl⟩⟩
+
+/-! ## the identifier serializers (`Hive/Model/AdsId.lean`): the root cell goes through them, the import uses the raw root -/
+
+section IdCodecs
+variable {B : Type}
+
+/-- **A round-tripping identifier serializer pair is invisible, whatever its stored form.**  With
+`bytesToIdentifier (identifierToBytes r) = r` (wherever the encoder succeeds; the stored form may be the raw
+bytes, tagged, reversed, text …) every call on an instance whose root *cell* holds the stored form is the call
+of the sequential model, except that a `Commit` whose encoder fails changes nothing and answers "failed to set
+root"; the invariant (the cell holds the stored form of the digest the node store was flushed under; the trie
+was never imported from a dangling digest) is kept. -/
+theorem C09_id_codec_invisible (c : Cfg R) (ic : IdCodec R B) (same : R → R → Bool) (hrt : RoundTrip ic)
+    (hs : LawfulSame same) (st : ISt R B) (hi : IdInv ic st) (op : Op) :
+    IdInv ic (istep c ic same st op).1 ∧
+    (if op = .commit ∧ commitsOk c ic st op = false then istep c ic same st op = (st, .errSetRoot)
+     else (istep c ic same st op).1.s = (step c st.s op).1 ∧ (istep c ic same st op).2 = .out (step c st.s op).2) :=
+  istep_sim c ic same hrt hs st hi op
+
+/-- Along every history the instance is in the state of the sequential model after the same history without
+the failed `Commit`s — so every theorem of this file speaks about instances with any round-tripping identifier
+serializers, "a `Commit`" being one that returned nil. -/
+theorem C09_id_codec_run (c : Cfg R) (ic : IdCodec R B) (same : R → R → Bool) (hrt : RoundTrip ic)
+    (hs : LawfulSame same) (ops : List Op) :
+    let st := (irunG c ic same id (ISt.init : ISt R B) ops).1
+    IdInv ic st ∧ st.s = final c init (dropFailed c ic same ISt.init ops) := by
+  have h := irun_sim c ic same hrt hs ops ISt.init (idInv_init ic)
+  exact h
+
+/-- **Faithful reopen through any round-tripping identifier serializer**: a successful `Commit` followed by the
+constructor gives exactly the committed instance (same trie contents, raw keys, size, cell) — the import
+receives `dec (enc root) = root`, the digest the node store was flushed under. -/
+theorem C09_id_reopen_after_commit (c : Cfg R) (ic : IdCodec R B) (same : R → R → Bool) (hrt : RoundTrip ic)
+    (hs : LawfulSame same) (st : ISt R B) (hi : IdInv ic st) (hok : commitsOk c ic st .commit = true) :
+    let st₁ := (istep c ic same st .commit).1
+    let st₂ := (istep c ic same st₁ .reopen).1
+    st₂ = st₁ ∧ (istep c ic same st₂ .restored).2 = .out (.restored true) ∧
+    (istep c ic same st₂ .root).2 = (istep c ic same st .root).2 := by
+  obtain ⟨hd, _⟩ := hi
+  simp only [commitsOk, Bool.and_eq_true, Option.isNone_iff_eq_none] at hok
+  cases he : ic.enc (c.rootOf st.s.trie.fn) with
+  | none => simp [he] at hok
+  | some b =>
+    have hdec := hrt _ _ he
+    have hsame : same (c.rootOf st.s.trie.fn) (c.rootOf st.s.trie.fn) = true := (hs _ _).2 rfl
+    simp [istep, istepG, hd, he, hdec, hsame, step, Trie.commit, Trie.imported]
+    rfl
+
+/-- **`WasRestoredFromStorage` is true exactly when a `Commit` succeeded before** — for *any* serializer pair
+(round-tripping or not, failing or not), any history, any import digest. -/
+theorem C09_id_restored_iff_commit (c : Cfg R) (ic : IdCodec R B) (same : R → R → Bool) (dg : R → R) (ops : List Op) :
+    let st := (irunG c ic same dg (ISt.init : ISt R B) ops).1
+    (istepG c ic same dg st .restored).2 = .out (.restored (anyCommitOk c ic same dg ISt.init ops)) := by
+  have h := cell_run c ic same dg ops (ISt.init : ISt R B)
+  simp only [istepG]
+  rw [h]; simp [ISt.init]
+
+/-- **A failing identifier decoder**: the constructor starts a *new* trie over the old node store (nothing is
+found any more) while `WasRestoredFromStorage` says true — such a pair is outside the property. -/
+theorem C09_id_decoder_failure (c : Cfg R) (ic : IdCodec R B) (same : R → R → Bool) (st : ISt R B) (b : B)
+    (hcell : st.cell = some b) (hdec : ic.dec b = none) :
+    let st' := (istep c ic same st .reopen).1
+    (∀ k, has st'.s k = false) ∧ (istep c ic same st' .restored).2 = .out (.restored true) := by
+  simp [istep, istepG, hcell, hdec, has, Trie.fresh, Trie.get, kvGet]
+
+/-- **The import must receive the raw root, not its stored form** (the seeded change r6-2): with the
+tag-byte serializer (`enc r = 1 :: r`, which round-trips) and the stored form handed to the import
+(`dg x = 1 :: x`), `Commit; reopen` on a map with one entry gives an instance whose trie hangs below a digest the
+node store knows nothing about: another `Root()` than the committed one, and `Has` fails. -/
+theorem C09_id_import_through_codec_witness :
+    let c : Cfg (List UInt8) := { rootOf := fun f => (f [7]).getD [0], dec := fun _ => .ok }
+    let ic : IdCodec (List UInt8) (List UInt8) :=
+      { enc := fun r => some (1 :: r), dec := fun b => match b with | 1 :: r => some r | _ => none }
+    let run := fun dg => irunG c ic (· == ·) dg ISt.init [.set (some [7]) (some [9]), .commit, .root, .reopen, .root, .has (some [7])]
+    RoundTrip ic ∧
+    ((run id).2.drop 2 = [.out (.root [9]), .out .ok, .out (.root [9]), .out (.bool true)]) ∧
+    ((run (fun x => 1 :: x)).2.drop 2 = [.out (.root [9]), .out .ok, .out (.root [1, 9]), .out .errTree]) := by
+  refine ⟨?_, rfl, rfl⟩
+  intro r b h
+  simp at h
+  subst h; rfl
+
+end IdCodecs
 
 /-! ## the hypotheses are satisfiable; a concrete non-trivial run -/
 
